@@ -30,9 +30,17 @@ Keys == NearKeys
 Vec(pairs, cls) ==
   [ops |-> << [op |-> "RAddrAccess", fn |-> "accessors", via |-> "ctor", pairs |-> pairs, keys |-> Keys, cls |-> cls],
               [op |-> "RAddrAccess", fn |-> "accessors", via |-> "parse", pairs |-> pairs, keys |-> Keys, cls |-> cls,
-               in |-> EncRouterAddress(5, Zeros(8), << 78, 84, 67, 80, 50 >>, SortPairs(pairs))] >>]
+               in |-> EncRouterAddress(5, Zeros(8), << 78, 84, 67, 80, 50 >>, SortPairs(pairs))],
+              \* the parser keeps the received order: the same options in the order given here (usually unsorted) and reversed
+              [op |-> "RAddrAccess", fn |-> "accessors", via |-> "parse", pairs |-> pairs, keys |-> Keys, cls |-> cls \o "/wire-order",
+               in |-> EncRouterAddress(5, Zeros(8), << 78, 84, 67, 80, 50 >>, pairs)],
+              [op |-> "RAddrAccess", fn |-> "accessors", via |-> "parse", pairs |-> pairs, keys |-> Keys, cls |-> cls \o "/reversed",
+               in |-> EncRouterAddress(5, Zeros(8), << 78, 84, 67, 80, 50 >>, [i \in 1..Len(pairs) |-> pairs[Len(pairs) + 1 - i]])] >>]
 HostVecs == SeqMap(LAMBDA h : Vec(<< << KHost, h >>, << KPort, D(8080) >> >>, "host"), Hosts)
 PortVecs == SeqMap(LAMBDA p : Vec(<< << KHost, V4(10, 0, 0, 1) >>, << KPort, p >> >>, "port"), Ports)
+OrderVecs ==
+  << Vec(<< << << 118 >>, << 50 >> >>, << KPort, D(4567) >>, << KHost, V4(192, 0, 2, 7) >> >>, "order-v-port-host"),
+     Vec(<< << << 122, 122 >>, << 49 >> >>, << KHost, V4(10, 1, 1, 1) >>, << << 97 >>, << 49 >> >>, << KPort, D(9) >>, << << 105 >>, Fill(16, 2) >>, << << 115 >>, Fill(32, 3) >> >>, "order-mixed") >>
 NearVecs ==
   SeqMap(LAMBDA k : Vec(<< << k, V4(1, 2, 3, 4) >> >>, "nearkey"), NearKeys)
   \o << Vec(<< << << 104, 111, 115 >>, V4(1, 1, 1, 1) >>, << << 104, 111, 115, 116, 120 >>, V4(2, 2, 2, 2) >> >>, "prefix-and-extension-only"),
@@ -41,7 +49,7 @@ NearVecs ==
 SILens == << 0, 1, 15, 16, 17, 31, 32, 33, 64, 255 >>
 SIVecs == SeqMap(LAMBDA n : Vec(<< << << 115 >>, Fill(n, 3) >>, << << 105 >>, Fill(n, 4) >> >>, "s-i-len" \o ToString(n)), SILens)
 RndVecs == [k \in 1..(IF Thorough THEN 200 ELSE 20) |-> Vec(<< << KHost, Hosts[RndNat(Seed, k, Len(Hosts)) + 1] >>, << KPort, Ports[RndNat(Seed, k + 500, Len(Ports)) + 1] >> >>, "rnd")]
-Vecs == HostVecs \o PortVecs \o NearVecs \o SIVecs \o RndVecs
+Vecs == HostVecs \o PortVecs \o OrderVecs \o NearVecs \o SIVecs \o RndVecs
 VARIABLE done
 Init == done = FALSE
 Next == ~done /\ ndJsonSerialize(OutFile, Vecs) /\ PrintT(<< "GENERATED", Len(Vecs) >>) /\ done' = TRUE
